@@ -60,11 +60,11 @@ CLAIMS.update({
     'C13': ('Theorems for every PIN of 4..12 digits, every PAN of >= 13 digits, every fill < 2^64: the code\'s string/big-integer construction equals the nibble-level ISO 9564 '
             'spec (formats 0 and 4) and rebuilding returns the PIN; encrypted forms = E(key, clear block) and decrypt back, for any cipher pair with D(E x) = x that preserves length. '
             'Correspondence + independent nibble construction, from-scratch DES/3DES/AES reference checked on FIPS vectors, direct ECB calls, recorded random draws.',
-            TB + 'the ciphers are external (Section variables E, D with D(E x) = x and length preservation); that cryptography implements FIPS DES/AES is tested by known-answer vectors, not proved; freshness of secrets.randbits is not modelled',
+            TB + 'Triple-DES is inside the model (model/Des.v: FIPS 46-3 / SP 800-67, inverse law proved for every key and data, props/C13tdes.v instantiates the theorem; the extracted cipher is compared with cryptography on FIPS vectors and random keys each run); AES is external (Section variables E, D with D(E x) = x and length preservation; cryptography is tested against FIPS 197 vectors by a from-scratch reference, not proved); freshness of the random source is not modelled (observed: one fill per block object, different fills for separate blocks)',
             'Coq proof (nibble xor = N.lxor bridge, digit/hex lemmas) + differential correspondence + reference ciphers', '6/C13'),
     'C14': ('Theorems: TSP = 11 rightmost PAN digits without check digit + key index + leftmost 4 PIN digits; decimalisation = Visa two-scan spec, always 4 decimal digits, for every 16-nibble '
             'ciphertext; key-part combination = XOR (permutation invariant, duplicates cancel, 32 hex digits); KCV and encrypted zone key as published. Correspondence with cipher stubs driving 0..4 substituted digits.',
-            TB + 'DES/3DES external (Section variable E, length preserving)', 'Coq proof (list/xor algebra, no enumeration of ciphertexts) + differential correspondence + reference DES', '6/C14'),
+            TB + 'Triple-DES inside the model (model/Des.v, props/C14tdes.v instantiate the PVV / KCV / zone-key theorems with it; compared with cryptography each run); the general theorems stay stated for any length-preserving E', 'Coq proof (list/xor algebra, no enumeration of ciphertexts) + differential correspondence + reference DES', '6/C14'),
 })
 CLAIMS.update({
     'C01': ('Round-trip theorem at full strength: every well-formed configuration (wf_cfgb), every codec table of 256 entries, binary and hex bitmap, every well-formed message (wf_msgb: '
